@@ -2,7 +2,21 @@ import Orb.Proto
 import Driver.C11
 
 /-! Driver for C19: the sequential oracle for concurrent quadtree queries.
-    `conc <bound> <nb> build-ops… <M> query-ops… <G> <R> <buf> => res_1 ; … ; res_M ; F <same> <treeSame> <races>` -/
+    `conc <bound> <nb> build-ops… <M> query-ops… <G> <R> <buf> =>
+       res_1 ; … ; res_M ; F <same> <treeSame> <buildSame> <oracleTreeSame> <lateSame> <boundSame>`
+    res_i        answer of query i run ALONE on a second tree built by the same history (the tree the
+                 goroutines use is not queried before they start)
+    same         every concurrent answer (through the *Matching methods and through the Find /
+                 KNearest / InBound wrappers) equals res_i
+    treeSame     node structure, Bound() and the coordinates of the stored pointers of the shared tree
+                 are the same before the goroutines start, after they finish, and after a further
+                 sequential pass
+    buildSame    the two trees built by the same history are identical (the oracle is an oracle)
+    oracleTreeSame  the sequential pass left the oracle tree unchanged
+    lateSame     every query run alone on the shared tree AFTER the concurrent phase still answers res_i
+    boundSame    Bound() read concurrently always returned the construction bound
+    A data race reported by the race detector kills the harness process; `check` turns that into
+    `propfail data-race` (no flag here). -/
 namespace Driver.C19
 open Orb Orb.Proto Orb.Core Orb.Quadtree Driver.C11
 
@@ -33,10 +47,13 @@ def handleConc (inp out : Toks) : String :=
       else s!"diff sequential answers differ from the model: {" ; ".intercalate mres}"
     fin <|
     match flags with
-    | ["F", same, treeSame, races] =>
-      if races != "0" then "propfail data-race" else
+    | ["F", same, treeSame, buildSame, oracleTreeSame, lateSame, boundSame] =>
+      if buildSame != "1" then "propfail same-history-different-tree" else
       if same != "1" then "propfail concurrent-answer-differs" else
       if treeSame != "1" then "propfail tree-changed" else
+      if oracleTreeSame != "1" then "propfail tree-changed-by-sequential-query" else
+      if boundSame != "1" then "propfail bound-changed" else
+      if lateSame != "1" then "propfail answer-differs-after-concurrent-phase" else
       if g ≥ 2 then (if build.any (fun | .remId _ _ | .remPt _ => true | _ => false) then "ok conc-after-removals" else "ok conc") else "ok triv-single"
     | _ => "bad flags"
 
